@@ -59,6 +59,18 @@ CLAIMED = {
   text="Deductive proof of the three facts isolation rests on: both create_task calls of TaskGroupContext.run/ctx.spawn start the task from copy_context() taken at the spawn point (or the default, which is the same); a frame audit of context/state.py shows that no function mutates a ScopeState (or any module-level object) after construction and that context changes are only ContextVar.set/reset in __enter__/__exit__; ScopeState.state and .updated are proved (semantically) to leave the receiver's view untouched and updated returns a new object (copy-on-update).",
   note="The schedule quantifier itself is discharged by T-CV (contexts are task-local; a task runs in the copy it was given): assumed, stated in the evidence. Shared mutable heap reachable from the context is the only other channel and is what is proved absent.",
   ref="DESIGN.md 4 (C03)"),
+ "C09": dict(
+  text="Unbounded deductive proof over the whole (arbitrarily large) scope tree: ScopeMetrics objects are symbolic heap references and the invariant quantifies over all of them - completed => finished; completed => every nested scope completed; finished and not completed => some nested scope not completed (eagerness); nested lists and parent pointers agree; futures and lists are not shared. __init__, _finish and the recursive _complete_if_able (recursive call checked against its own contract, with the eagerness clause allowed to be broken exactly at the callee) preserve it on every path, every assert of the source is proved to hold at its call sites, set_result happens at most once per scope and only on its own future, completion is never undone, time is the stored constant after completion; MetricsContext.__enter__/__exit__ reach _finish with its precondition and never raise; lemma L-TREE (step by SMT) gives is_completed(s) <=> completed(s) and completed(s) => every descendant finished; MetricsContext.scope registers a fresh scope under the scope current at creation.",
+  note="Trusted: T-FUT (done callbacks run exactly once after completion - this is what turns 'completed exactly once' into 'callback exactly once'), the induction principle of L-TREE (children are created after their parent), S4. Frame audits (who calls _finish / set_result) are syntactic and reported as undecided, not as violations, when the code shape is not recognised.",
+  ref="DESIGN.md 4 (C09)"),
+ "C10": dict(
+  text="Deductive proof: ScopeMetrics.record stores the first record of a type as is and otherwise merge(current, new) in that order (left fold by induction over the recording history), touches no other type (frame over the whole dict), refuses completed scopes and leaves the metrics untouched when merge fails; read returns own value else default; metrics(merge) returns exactly the own values without merge and otherwise folds the nested scopes' metrics(merge=merge) - concatenated in _nested (creation) order - as merge(current-or-MISSING, item), storing non-MISSING results under the item's exact type, never modifying the scope's own dict; MetricsContext.record/ctx.record target the scope current in the recording task, let no Exception escape (outside a scope, failing merge, completed scope) and log the failure.",
+  note="Trusted: T-COLL (dict, copy, chain.from_iterable), T-CV, S5 (State instances are truthy). The recursive call of metrics() on nested scopes is a callee contract (uninterpreted result per nested scope); a non-Exception BaseException raised by a merge function propagates (by design).",
+  ref="DESIGN.md 4 (C10)"),
+ "C19": dict(
+  text="Deductive proof on the real logging path: ScopeMetrics.__init__ uses a given trace id / logger, else a fresh id / the logger named after the scope, and builds the tag from trace id, name (when non-empty) and a fresh identifier; MetricsContext.scope passes own-else-enclosing trace id and logger to nested scopes; ScopeMetrics.log emits exactly one record to the scope's logger at the requested level with the exception attached, text = tag + message, caller's arguments unchanged, and the tag reaches a %-format only through replace('%','%%') when formatting applies (structural format safety); the eight MetricsContext.log_*/ctx.log_* functions route to the current scope with the right level or - outside any scope - to the root logger untagged, and never raise.",
+  note="Trusted: T-LOG (Logger.log never raises, formats msg % args only when args is non-empty), T-FMT (%% renders as %), strings are opaque (concatenation is an uninterpreted constructor), T-CV.",
+  ref="DESIGN.md 4 (C19)"),
 }
 
 ALL = [f"C{i:02d}" for i in range(1, 21)]
